@@ -264,6 +264,10 @@ def gen_c10rib(rng, tier):
             ops.append("U %d %d %s %s %s" % (rng.range(1, 3), tag, gen_attrs(rng), ",".join(map(str, ann)) or "-",
                                              ",".join(map(str, wd)) or "-"))
             tag += 1
+            if rng.chance(18):
+                # a route of an MRT table dump (mrt-file-in): Update::Single, provenance in an MrtContext
+                ops.append("M %d %d %s %d" % (rng.range(1, 3), tag, gen_attrs(rng), rng.choice(pool)))
+                tag += 1
             if rng.chance(50):
                 ops.append("Q %d" % rng.choice(pool))
         for p in sorted(set(pool)):
@@ -293,6 +297,8 @@ def classify_rib(case, out):
         ks.append("has-output")
     if any("W" in t for t in toks if t.startswith("q:")):
         ks.append("withdrawn-in-rib")
+    if any(o.startswith("M ") for o in case.split(";")):
+        ks.append("mrt-context-route")
     return ks
 
 
@@ -306,6 +312,9 @@ def corpus_c10rib():
         "U 1 5 s65002/-/-/- %d,%d -;U 1 6 s65001/-/-/- %d -;U 2 7 s65003/7/-/- - %d;Q %d;Q %d;U 1 8 -/-/-/- - %d,%d;Q %d;Q %d"
         % (P, P, P, P2, P, P, P, P2, P, P2, P, P2),
         "F rib none;U 1 5 s65002/-/-/- %d,%d -;Q %d" % (P, P2, P),
+        # routes of an MRT table dump (RouteContext::Mrt): filtered, logged with their own ingress id, stored
+        "F rib if asc #65001 out asn #65001 ret R end out custom #1 #2 ret A;M 1 5 s65002/-/-/- %d;M 2 6 s65001/-/-/- %d;M 2 7 s65003/-/-/- %d;"
+        "U 1 8 s65003/-/-/- %d -;Q %d" % (P, P, P, P, P),
         "F rib if att #35 ret A ret R end;U 1 1 s65001/-/-/35 %d -;U 1 2 s65001/-/-/- %d -;U 1 3 s65001/-/-/35 - %d;Q %d;Q %d" % (P, P2, P, P, P2),
     ]
 
@@ -412,6 +421,10 @@ def gen_c10bgp(rng, tier):
     n = 800 if tier == "quick" else 16000
     for _ in range(n):
         prog = "none" if rng.chance(8) else gen_prog(rng, "bgp", peerdown=6)
+        if prog != "none" and rng.chance(45):
+            # verdict and output depend on the session's provenance: the peer's AS (the scripted session's peer is
+            # AS12345), the unit's own AS (65000), AS0, an AS of the pools
+            prog = prov_clause(rng, [12345, 12345, 12345, 65000, 0, 65001, 174]) + " " + prog
         ops = ["F bgp %s" % prog]
         pool = [rng.choice(PFXS) for _ in range(3)]
         for tag in range(1, rng.range(2, 7)):
@@ -433,7 +446,14 @@ def classify_bgp(case, out):
         ks.append("has-output")
     if "O[]" in out:
         ks.append("empty-output-stream-update")
-    return ks
+    if " pasn " in case.split(";")[0]:
+        ks.append("reads-provenance")
+    for o in case.split(";")[1:]:
+        f = o.split()
+        if f[0] == "G":
+            ks.append("update:" + ("empty" if f[3] == "-" and f[4] == "-" else "withdraw-only" if f[3] == "-" else
+                                   "announce-only" if f[4] == "-" else "both"))
+    return sorted(set(ks))
 
 
 def corpus_c10bgp():
@@ -442,6 +462,11 @@ def corpus_c10bgp():
         "F bgp if pasn #12345 out custom #1 #1 end end if asc #65001 out asn #65001 out peerdown ret R end ret A;"
         "G 5 s65001.65003/-/-/- %d -;G 6 s65003/-/-/- %d,%d -;G 7 -/-/-/- - %d" % (P, P2, P, P),
         "F bgp none;G 5 s65001.65003/-/-/- %d -" % P,
+        # "reject and log everything from AS12345" / from the unit's own AS: every kind of UPDATE of the session
+        # (announcements, withdrawals only, both, none) gets the verdict of the session's peer AS
+        "F bgp if pasn #65000 out custom #9 #9 ret R end let asn 12345 if pasn $0 out asn $0 ret R ret A end;"
+        "G 5 s65001.65003/-/-/- %d -;G 6 -/-/-/- - %d;G 7 s65003/-/-/- %d %d;G 8 -/-/-/- - -" % (P, P, P2, P),
+        "F bgp if not pasn #12345 out custom #1 #1 ret R end ret A;G 5 s65001.65003/-/-/- %d -;G 6 -/-/-/- - %d;G 8 -/-/-/- - -" % (P, P),
         "F bgp let asn 65536 let com 4294902426 if aso $0 out origin $0 end end if com $1 out comm $1 end end ret A;"
         "G 1 s65001.65536/4294902426/-/- %d -;G 2 s65536.65001/7/-/- %d %d" % (P, P2, P),
     ]
